@@ -24,9 +24,9 @@ func init() {
 			"Sacramento is chained step-by-step only with the no-lag unit hydrograph (its UH buffer is not a state: known finding of C06); lagged UHs are checked on whole runs",
 		},
 		Workloads: []core.Workload{
-			{Name: "rr", Variant: "plain", N: core.Tiered(5*60, 5*6000), Run: c10Case},
+			{Name: "rr", Variant: "plain", N: core.Tiered(5*160, 5*6000), Run: c10Case},
 		},
-		RequireTags: func(string) []string { return []string{"GR4J:closure", "Sacramento:chained", "Sacramento:whole-lagged"} },
+		RequireTags: func(string) []string { return []string{"GR4J:closure", "Sacramento:chained", "Sacramento:whole-lagged", "Sacramento:small-lztwm-stress", "Sacramento:small-suppl-store-stress"} },
 	})
 }
 
@@ -48,6 +48,74 @@ func c10Case(c *core.Ctx) {
 	if closure {
 		for t := range in[1] {
 			in[1][t] = 0
+		}
+	}
+	// Sacramento stress regime: a small lower tension store (the ADIMP runoff ratio is (ADIMC-UZTWC)/lztwm), a large
+	// upper free-water store that big storms fill, and heat-wave PET right after the storms, so that the
+	// free-to-tension transfer lifts UZTWC well above ADIMC
+	stress := false
+	if model == "Sacramento" && c.R.Bool(0.3) {
+		stress = true
+		ps[paramIndex(desc, "lztwm")][0] = c.R.Range(5, 12)
+		ps[paramIndex(desc, "uzfwm")][0] = c.R.Range(40, 75)
+		ps[paramIndex(desc, "uztwm")][0] = c.R.Range(30, 125)
+		ps[paramIndex(desc, "adimp")][0] = c.R.Range(0.05, 0.5)
+		if c.R.Bool(0.6) { // slow drainage keeps the free-water store full into the heat wave
+			ps[paramIndex(desc, "uzk")][0] = c.R.Range(0, 0.3)
+			ps[paramIndex(desc, "lzpk")][0] = c.R.Range(0, 0.05)
+			ps[paramIndex(desc, "lzsk")][0] = c.R.Range(0, 0.3)
+		}
+		for t := 0; t < T; t++ {
+			in[0][t], in[1][t] = 0, c.R.Range(0, 8)
+			if c.R.Bool(0.3) {
+				in[0][t] = c.R.Exp(15)
+			}
+		}
+		for t := c.R.Intn(10); t+1 < T; t += c.R.IntRange(3, 15) {
+			in[0][t] = c.R.Range(100, 500)
+			in[1][t+1] = c.R.Range(20, 40)
+			if c.R.Bool(0.5) {
+				in[0][t+1] = c.R.Range(0, 40)
+			}
+		}
+	}
+	// second Sacramento stress regime: a small supplemental free-water store that stays full (no drainage) next
+	// to a large primary one, and percolation bursts larger than the supplemental capacity
+	stress2 := false
+	if model == "Sacramento" && !stress && c.R.Bool(0.3) {
+		stress2 = true
+		set := func(n string, v float64) { ps[paramIndex(desc, n)][0] = v }
+		set("lzfsm", c.R.Range(5, 7))
+		set("lzfpm", c.R.Range(400, 600))
+		set("lzsk", pick(c.R, 0, 0, c.R.Range(0, 0.005)))
+		set("lzpk", c.R.Range(0.01, 0.08))
+		set("side", c.R.Range(0, 0.5))
+		set("pfree", c.R.Range(0.6, 1))
+		set("zperc", c.R.Range(15, 80))
+		set("rexp", c.R.Range(0, 0.5))
+		set("uzk", c.R.Range(0, 0.1))
+		set("uzfwm", c.R.Range(50, 75))
+		set("lztwm", c.R.Range(5, 100))
+		// cycles: wet spell (everything fills), a few dry days without evaporation (only the primary store
+		// drains), a storm, a dry day
+		t := 0
+		put := func(rain, pet float64) {
+			if t < T {
+				in[0][t], in[1][t] = rain, pet
+				t++
+			}
+		}
+		for t < T {
+			for k := c.R.IntRange(8, 15); k > 0; k-- {
+				put(c.R.Range(30, 80), c.R.Range(0, 3))
+			}
+			for k := c.R.IntRange(1, 4); k > 0; k-- {
+				put(0, 0)
+			}
+			put(c.R.Range(80, 300), 0)
+			for k := c.R.IntRange(1, 3); k > 0; k-- {
+				put(0, c.R.Range(0, 5))
+			}
 		}
 	}
 	// extreme storm now and then
@@ -72,11 +140,17 @@ func c10Case(c *core.Ctx) {
 		warm = &MRun{Model: model, N: 1, T: wT, Sets: []PSet{ps}, Inputs: [][][]float64{GenInputs(model, c.R, wT, ps)}}
 	}
 	c.Begin(map[string]interface{}{"model": model, "run": run, "warmup_for_hot_states": warm, "chained": chained})
+	if stress {
+		c.Tag("Sacramento:small-lztwm-stress")
+	}
+	if stress2 {
+		c.Tag("Sacramento:small-suppl-store-stress")
+	}
 	maxRain := 0.0
 	for _, v := range in[0] {
 		maxRain = math.Max(maxRain, v)
 	}
-	c.Class(fmt.Sprintf("%s/hot%v/chained%v/closure%v/storm%v/T%d", model, hot, chained, closure, maxRain >= 200, T/100))
+	c.Class(fmt.Sprintf("%s/hot%v/chained%v/closure%v/storm%v/stress%v/T%d", model, hot, chained, closure, maxRain >= 200, stress || stress2, T/100))
 	// initial states
 	if hot {
 		wo, err := Execute(warm)
